@@ -173,6 +173,11 @@ class Translator:
                 v = sub[t[1]]
                 if v[0] == 'strlit': raise Unsupported('string argument used as parser')
                 return v
+            if t[0] == 'kwGuard' and isinstance(t[1], tuple) and t[1][0] == 'hole':
+                v = sub[t[1][1]]
+                if v[0] == 'hole': return ('kwGuard', v)
+                if v[0] != 'strlit': raise Unsupported('parser argument used as keyword text')
+                return ('kwGuard', v[1])
             if t[0] == 'term' and isinstance(t[1][1], tuple) and t[1][1][0] == 'hole':
                 v = sub[t[1][1][1]]
                 if v[0] == 'hole': return ('term', (t[1][0], v))
@@ -306,8 +311,18 @@ class Translator:
         r'Ok\(\(s, (?P<acc4>\w+)\)\)$')
     KWTAIL = re.compile(r'if is_keyword\(&(\w+)\) \{ Err\(Err::Error\(make_error\(s, ErrorKind::Fix\)\)\) \} else \{ Ok\(\(s, into_locate\((\w+)\)\)\) \}\s*$')
 
+    GUARD = re.compile(r'^\s*if is_later_keyword\((\w+)\) \{ return Err\(Err::Error\(make_error\(s, ErrorKind::Fix\)\)\); \}\s*')
+
     def tr_body(self, body, holes=frozenset()):
         """Translate a function (or combinator closure) body to a PExpr."""
+        gm = self.GUARD.match(re.sub(r'\s+', ' ', body))
+        if gm:
+            # the guard is the first statement: evaluate it, then the rest of the body
+            raw = body[body.index('}') + 1:]
+            inner = self.tr_body(raw, holes)
+            gv = gm.group(1)
+            if gv not in holes: raise Unsupported('is_later_keyword of a non-parameter')
+            return ('seq', [('kwGuard', ('hole', gv)), inner])
         stmts_src, rest = parse_stmts_prefix(body)
         # (a) single expression applied to s
         if not rest and len(stmts_src) == 1 and stmts_src[0][0] == 'tail':
